@@ -8,6 +8,7 @@ import JanetModel.Stream.Slots
 import JanetModel.Stream.Liveness
 import JanetModel.Stream.NetLemmas
 import JanetModel.Stream.Compose
+import JanetModel.Stream.Refine
 import JanetModel.Proc.Status
 import JanetModel.Proc.SpawnLemmas
 import JanetModel.Proc.SetupLemmas
@@ -787,6 +788,16 @@ theorem shared_stream_close_wakes_all {σ ε : Type} (step : σ → ε → σ ×
   exact close_leaves_nothing_pending step c _ (shared_stream_invariant step c as) g
 
 example : ((run2 wstep .close W2.init (exSched ++ [.close])).done.map (fun x => (x.1, x.2.2.res))) = [(0, .done), (2, .failed .closed)] := by decide
+
+/-- ★ REFINEMENT of the registry by the composed machine: for every schedule of the shared stream (any machines) there is a
+    schedule of registry actions of the same length — start / ready / close with the `fin` flags the machines decided —
+    along which the listener-slot model `World` (the model that `every_op_completes_or_errors` is about and that the `S`
+    correspondence compares with the implementation) and the composed machine agree on both slots, on who waits in which
+    direction, and on closedness. -/
+theorem shared_stream_refines_registry {σ ε : Type} (step : σ → ε → σ × Bool) (c : ε) (as : List (Act2 σ ε)) :
+    ∃ as' : List Act, as'.length = as.length ∧
+      coreOfWorld (World.run true true World.init as') = coreOfW2 (run2 step c W2.init as) :=
+  run2_refines step c as W2.init World.init rfl (fun d f h => by simp [W2.init] at h)
 
 end Shared
 
